@@ -297,3 +297,21 @@ PROPS["C18"] = {
         {"name": "c18.atm", "engine": "rapid", "quick": R(8, 12000), "thorough": R(16, 800000)},
     ],
 }
+
+PROPS["C19"] = {
+    "binary": "c19_transfer",
+    "level": "fault_enumeration",
+    "technique": "property-based fault injection (rapidcheck): generated (size, block size, content, single fault in the block sequence) transfers through a harness relay between two real clients and from a conforming scripted sender into the real receiver; byte-for-byte content oracle",
+    "level_text": ("Transfers with sizes around block boundaries (0, 1, b-1, b, b+1, 2b, random) and, for the scripted sender, every block size 1..4096 plus the 65535/65536/65537-block cases that wrap the 16-bit sequence counter, are run with no fault and with each of eleven single faults "
+                   "(drop, duplicate, swap, bit flip keeping valid base64, truncated payload, early close, missing close, wrong session id, block from a third JID replacing or accompanying the real one, sequence number off by one) at a generated position. "
+                   "Fault-free: the receiver's device holds exactly the sender's bytes and the jobs finish with NoError. Always: the receiver reports NoError only if the delivered bytes are identical."),
+    "level_note": "Trusted: the relay / scripted sender in harness/c19_transfer.cpp (a conforming XEP-0047/XEP-0096 sender: stop-and-wait, sequence modulo 65536, close after the last block). Offers carry size and MD5 hash as the library's own file sender produces them (without a hash an altered block is undetectable by any receiver). The library's sender always proposes 4096-byte blocks, so other block sizes are only reachable with the scripted sender.",
+    "rule": "Non-trivial: size not a multiple of the block size, or >=65536 blocks, or a fault present. Distinct = (path, size, block size, fault, position).",
+    "assumptions": ["in-band bytestreams and SOCKS5 via a local stream host on 127.0.0.1 only (no network in the sandbox)"],
+    "subs": [
+        {"name": "c19.ibb", "engine": "rapid", "quick": R(4, 1200), "thorough": R(8, 60000)},
+        {"name": "c19.receiver", "engine": "rapid", "quick": R(4, 5000), "thorough": R(8, 300000)},
+        {"name": "c19.wrap", "engine": "enum", "quick": {"workers": 3, "cases": 0, "params": {"max_block": 1, "faults": 1, "partition_depth": 2}, "max_seconds": 600},
+         "thorough": {"workers": 16, "cases": 0, "params": {"max_block": 3, "faults": 5, "partition_depth": 3}, "max_seconds": 3000}},
+    ],
+}
